@@ -76,7 +76,8 @@ package disk
 //@ func (c *diskCache) Put(ctx context.Context, kind cache.EntryKind, hash string, size int64, r io.Reader) (rErr error)
 //@   serves C01 C03 C04 C07 C08 C12 C18
 //@   requires wfCache(c) && !locked && r != nil && ctx != nil && held >= 0
-//@   modifies lruState(c.lru), held, adopted, tmpOpen, tmpName, tmpRandom, tfc.idum, pxPuts
+//@   modifies lruState(c.lru), held, adopted, tmpOpen, tmpName, tmpRandom, tfc.idum, pxPuts, resN
+//@   ensures[C18] exactlimit: (isCacheErr(rErr, 400) && resN == old(resN)) ==> (size < 0 || size > c.maxBlobSize || len(hash) != 64)
 //@   ensures[C12] once: pxPuts == old(pxPuts) || pxPuts == old(pxPuts) + 1
 //@   ensures[C12] rejectednotsent: (size > c.maxBlobSize || size < 0 || len(hash) != 64 || c.proxy == nil) ==> pxPuts == old(pxPuts)
 //@   ensures[C07] unlocked: !locked
